@@ -32,12 +32,16 @@ def forall(ty, f):
     return all(f(x) for x in UNIVERSE.get(ty, []))
 
 
+def none_of(ty):
+    return None
+
+
 def implies(a, b):
     return (not a) or b
 
 
 def spec_env(*modules):
-    env = {'implies': implies, 're_match': re_match, 'forall': forall}
+    env = {'implies': implies, 're_match': re_match, 'forall': forall, 'none_of': none_of}
     for m in modules:
         mod = importlib.import_module(m) if isinstance(m, str) else m
         for k, v in vars(mod).items():
